@@ -215,6 +215,8 @@ def run(ctx):
     ctx.rule("C07.R3", "an undeclared (implicit) fixed-register operand is loaded immediately before the instruction that reads it", floor=20)
     ctx.extra["implicit_operand_sites"] = implicit_operand_windows(ctx, dump, "x86_64", "C07.R3")
     register_api(ctx, "C07.R7")
+    from .c08 import arm_addressing_bits
+    arm_addressing_bits(ctx, "C07.R8")     # a post-indexed or write-back encoding changes the base register, which is declared read-only
     # R2: flag sanity + sibling vectors
     for arch in archs:
         a = dump["archs"][arch]
